@@ -214,6 +214,11 @@ struct World {
     released: BTreeSet<u64>,
     root_ok: bool,
     faulted: bool,
+    /// errno of the harness's own open_by_handle_at on a vanished file during this request
+    stale_errno: std::cell::Cell<Option<i32>>,
+    /// numbers the client holds whose host (dev, ino) the current request's target reuses with a
+    /// different file handle (inode_file_handles + use_host_ino only)
+    alias_now: Vec<u64>,
 }
 
 fn list_fds() -> Vec<i32> {
@@ -339,6 +344,8 @@ impl World {
             released: BTreeSet::new(),
             root_ok: false,
             faulted: false,
+            stale_errno: std::cell::Cell::new(None),
+            alias_now: vec![],
         }
     }
 
@@ -376,7 +383,19 @@ impl World {
             *self.fhs.entry(b.clone()).or_insert(n)
         });
         let ft = md.file_type();
-        Ok(Fact { key: Key { dev: md.dev(), ino: md.ino(), fh }, id, fhid, safe: ft.is_file() || ft.is_dir(), is_dir: ft.is_dir() })
+        let key = Key { dev: md.dev(), ino: md.ino(), fh };
+        if self.cfg.fh && self.cfg.hi {
+            for (ino, c) in self.held.iter() {
+                if *c > 0 {
+                    if let Some(f) = self.ident.get(ino) {
+                        if (f.key.dev, f.key.ino) == (key.dev, key.ino) && f.key.fh != key.fh && !self.alias_now.contains(ino) {
+                            self.alias_now.push(*ino);
+                        }
+                    }
+                }
+            }
+        }
+        Ok(Fact { key, id, fhid, safe: ft.is_file() || ft.is_dir(), is_dir: ft.is_dir() })
     }
 
     fn ans(&mut self, path: Result<PathBuf, i32>) -> (String, Option<Fact>) {
@@ -446,6 +465,8 @@ impl World {
             unsafe { libc::close(fd as i32) };
             false
         } else {
+            // usually ESTALE; ext4 sometimes answers ENOMEM for a just-deleted inode
+            self.stale_errno.set(Some(errno_of(&io::Error::last_os_error())));
             true
         }
     }
@@ -897,8 +918,18 @@ fn run_history(cfg: Cfg, root: PathBuf, auto_cleanup: bool, plans: &mut dyn FnMu
         step += 1;
         let before = w.sizes();
         let fds_before = w.fds();
-        let so = exec(&mut w, &plan, cap);
+        w.stale_errno.set(None);
+        w.alias_now.clear();
+        let mut so = exec(&mut w, &plan, cap);
         let kind = plan.kind();
+        if let Some(e) = w.stale_errno.get() {
+            // the errno of opening a vanished file by handle is a host answer: normalise to ESTALE
+            if e != 116 && so.is_err && so.errno == e {
+                so.errno = 116;
+                so.res = so.res.replace(&format!("e{}", e), "e116");
+            }
+        }
+        let aliased: Vec<u64> = w.alias_now.clone();
         if cap.is_some() && so.errno == 24 {
             w.faulted = true;
         }
@@ -1027,6 +1058,22 @@ fn run_history(cfg: Cfg, root: PathBuf, auto_cleanup: bool, plans: &mut dyn FnMu
             });
             w.hheld.insert(h, ino);
         }
+        // ---------------- known finding: host inode number reused while the old file is referenced
+        if !aliased.is_empty() {
+            let what = "inode_file_handles + use_host_ino: the host reused the (dev, ino) of a file the client still references; the same number is derived for the new file and the live entry is replaced";
+            finds.push(Finding { prop: "C08", key: "C08:number-aliased:host-ino-reused-while-held".into(), what: what.into() });
+            finds.push(Finding { prop: "C15", key: "C15:number-aliased:host-ino-reused-while-held".into(), what: what.into() });
+            // resynchronise the client ledger with what the server did to the replaced entry
+            for ino in &aliased {
+                let delivered = so.entry.iter().any(|e| e.0 == *ino && e.1);
+                if !delivered {
+                    let gone = matches!(w.fs.getattr(&Context::default(), *ino, None), Err(e) if errno_of(&e) == 9);
+                    if gone {
+                        w.held.insert(*ino, 0);
+                    }
+                }
+            }
+        }
         // ---------------- observation
         let mut bits = String::new();
         let inos = w.inos.clone();
@@ -1064,7 +1111,7 @@ fn run_history(cfg: Cfg, root: PathBuf, auto_cleanup: bool, plans: &mut dyn FnMu
         if fds != exp_fds {
             finds.push(Finding { prop: "C15", key: format!("C15:fd-leak:{}{}", kind, if so.is_err { ":on-error" } else { "" }), what: format!("{} descriptors open, {} accounted for by held inodes/handles", fds, exp_fds) });
         }
-        if so.is_err && !matches!(plan, Plan::Init | Plan::Destroy | Plan::Rdp { .. }) && (sz.0 != before.0 || sz.3 != before.3 || fds != fds_before) {
+        if so.is_err && aliased.is_empty() && !matches!(plan, Plan::Init | Plan::Destroy | Plan::Rdp { .. }) && (sz.0 != before.0 || sz.3 != before.3 || fds != fds_before) {
             finds.push(Finding { prop: "C15", key: format!("C15:failed-op-changed-tables:{}", kind), what: "a request that returned an error changed the inode/handle tables or the descriptor count".into() });
         }
         ops.push(so.op.clone());
